@@ -17,6 +17,11 @@ def sh(cmd, **kw):
   return subprocess.run(cmd, shell=isinstance(cmd, str), capture_output=True, text=True, **kw)
 sh(['git', '-C', '/repo', 'worktree', 'remove', '--force', wt]); shutil.rmtree(wt, ignore_errors=True)
 r = sh(['git', '-C', '/repo', 'worktree', 'add', '--detach', wt]); assert r.returncode == 0, r.stderr
+prev = {}
+try:
+  prev = json.load(open(os.path.join(ROOT, 'seeded', a.id, 'meta.json')))
+except Exception:
+  pass
 meta = dict(id=a.id, property=prop, repo_head=sh(['git', '-C', '/repo', 'rev-parse', '--short', 'HEAD']).stdout.strip(), ran=[])
 try:
   r = sh(['git', '-C', wt, 'apply', os.path.join(src, 'patch.diff')])
@@ -51,6 +56,12 @@ try:
   for f in ('patch.diff', 'demo.py', 'notes.txt'):
     if os.path.exists(os.path.join(src, f)):
       shutil.copy(os.path.join(src, f), os.path.join(dst, f))
+  # keep what earlier evaluations established (baseline run, first verdict, hand-written trigger description)
+  for k in ('baseline', 'baseline_ok', 'needs', 'first_evaluation'):
+    if k in prev and k not in meta:
+      meta[k] = prev[k]
+  meta.setdefault('first_evaluation', {k: v['exit'] for k, v in meta['detected_by'].items()})
+  meta['history'] = prev.get('history', []) + [dict(head=meta['repo_head'], detected_by={k: v['exit'] for k, v in meta['detected_by'].items()})]
   json.dump(meta, open(os.path.join(dst, 'meta.json'), 'w'), indent=1)
 finally:
   if not a.keep:
